@@ -650,10 +650,25 @@ theorem window_complete_with_rebuilds {tsOf : Nat → Int} (sparse bigGap : Nat)
     simp only [Option.some.injEq] at hpts
     rw [← hpts]; exact this
 
+/-- the payoff with the constants of the code (`sparseSpace`, `20·sparseSpace`, segment maximum starting at MinInt64):
+`hs0` is then the int64 lower bound -/
+theorem window_complete_with_rebuilds_code {tsOf : Nat → Int} (ops : List Op)
+    (hm : Monotone tsOf (totalOps ops)) (he : OpsExact tsOf 0 ops) (hn : totalOps ops ≤ maxU32)
+    (hlow : ∀ q, q < totalOps ops → minI64 ≤ tsOf q) (hhi : ∀ q, q < totalOps ops → tsOf q ≤ maxI64)
+    (r : TmRange) (p : Nat) (hp : p < totalOps ops) (hr : inRange r (tsOf p)) :
+    ∃ h, (runOps Generated.C02.sparseSpace (Generated.C02.sparseSpace * Generated.C02.bigGapFactor)
+          Generated.C02.rebuildSegmentMaxInit tsOf ops).hull = some h ∧
+      inWindow (window h (idxOf (runOps Generated.C02.sparseSpace
+        (Generated.C02.sparseSpace * Generated.C02.bigGapFactor) Generated.C02.rebuildSegmentMaxInit tsOf ops)) r) p := by
+  have f : Generated.C02.rebuildSegmentMaxInit = minI64 := by decide
+  exact window_complete_with_rebuilds _ _ _ ops hm he hn hlow hhi (by rw [f]; exact hlow) r p hp hr
+
 /-! ## (f) concrete instances -/
 
+section Instances
+set_option maxRecDepth 100000
+
 /-- 600 monotone records, `sparseSpace = 250`: the two root points, then one point per segment at its EXCLUSIVE end -/
-set_option maxRecDepth 100000 in
 example : rebuildPts 250 minI64 ((List.range 600).map (fun (i : Nat) => (i : Int))) =
     [⟨0, 0⟩, ⟨0, 0⟩, ⟨249, 250⟩, ⟨499, 500⟩, ⟨599, 600⟩] := by decide
 
@@ -665,11 +680,9 @@ example : ¬ Claims (fun (i : Nat) => (i : Int)) [⟨0, 0⟩, ⟨0, 0⟩, ⟨249
   omega
 
 /-- a write after a rebuild of a confirmed prefix: 300 records written, the first 260 rebuilt, 300 more written -/
-set_option maxRecDepth 100000 in
 example : (runOps 250 5000 minI64 (fun (i : Nat) => (i : Int)) [.write 300 0 299, .rebuild 260, .write 300 300 599]).pts =
     [⟨0, 0⟩, ⟨0, 0⟩, ⟨249, 250⟩, ⟨259, 260⟩, ⟨599, 599⟩] := by decide
 
-set_option maxRecDepth 100000 in
 example : (runOps 250 5000 minI64 (fun (i : Nat) => (i : Int)) [.write 300 0 299, .rebuild 260, .write 300 300 599]).hull =
     some ⟨0, 599⟩ ∧
     (runOps 250 5000 minI64 (fun (i : Nat) => (i : Int)) [.write 300 0 299, .rebuild 260, .write 300 300 599]).lastRec = 599 ∧
@@ -684,5 +697,17 @@ example : (runOps 250 5000 minI64 (fun (i : Nat) => (i : Int) + 100) [.write 10 
 
 /-- a rebuild of a chunk the index has not been told about changes nothing -/
 example : runOps 250 5000 minI64 (fun (i : Nat) => (i : Int)) [.rebuild 5] = {} := by decide
+
+/-- `hs0` is needed: with the segment maximum starting at 0 (the code before fix db44772) and negative timestamps the
+rebuilt point `(0, 2)` claims `0 ≤ tsOf 3 = -5` -/
+example : rebuildPts 2 0 [-30, -20, -10, -5] = [⟨-30, 0⟩, ⟨-30, 0⟩, ⟨0, 2⟩, ⟨0, 4⟩] ∧
+    ¬ LookupSound (fun q => [-30, -20, -10, -5].getD q 0) 4 (rebuildPts 2 0 [-30, -20, -10, -5]) := by
+  refine ⟨by decide, ?_⟩
+  intro h
+  have := h.2 ⟨0, 2⟩ (by decide) 3 (by decide) (by decide)
+  revert this
+  decide
+
+end Instances
 
 end Logrange.RebuildHist
